@@ -35,8 +35,6 @@ def _add_its_nodes(ITS, G, H, eta):
 def _add_its_edges(ITS, G, H, eta):
     eta_G, eta_G_inv, eta_H, eta_H_inv = eta[0], eta[1], eta[2], eta[3]
     for n1, n2, d in G.edges(data=True):
-        if n1 > n2:
-            continue
         e_G = d[BOND_KEY]
         n_ITS1 = eta_G[n1]
         n_ITS2 = eta_G[n2]
@@ -56,8 +54,6 @@ def _add_its_edges(ITS, G, H, eta):
             ITS.add_edge(n_ITS1, n_ITS2, **edge_attributes)
 
     for n1, n2, d in H.edges(data=True):
-        if n1 > n2:
-            continue
         e_H = d[BOND_KEY]
         n_ITS1 = eta_H[n1]
         n_ITS2 = eta_H[n2]
